@@ -1,4 +1,5 @@
 import Glom.Lemmas.C20
+import Glom.Lemmas.C20Arg
 import Glom.Model.C20Env
 /-
   C20 — Concurrent and re-entrant glom calls behave exactly as when run alone.
@@ -25,7 +26,10 @@ open Glom.C20
     are `Path._CACHE` and `Path._STAR_WARNED`, and no function has a mutable default argument
     (an object shared by all calls); among the objects calls share — module-level singletons and
     spec objects (classes with `glomit`) — only the registry's methods write `self`; `arg_val`
-    builds its `_ArgValuator` per call and `bbrepr`'s recursion guard is reprlib's (per thread);
+    builds its `_ArgValuator` per call, and `_ArgValuator.mode` (abstractly executed for each container
+    type) returns a container built in this call or its cache entry for the argument, never the
+    argument itself, and caches only containers built in this call; `bbrepr`'s recursion guard is
+    reprlib's (per thread);
     `glom()` derives the scope of a call from
     `_DEFAULT_SCOPE.new_child` with a dict literal whose containers are fresh (`[]`,
     `ScopeVars({}, {})`), `_glom` gives every evaluation step a fresh child dict with a
@@ -271,13 +275,186 @@ theorem c20_model_checks (max : Nat) (reg : Reg) (evs : List Ev) (sh0 : Sh) (h0 
       simp only [Agrees] at this
       simp [this, hi, Prog.outcome?]
   simp only [checkC20, Bool.and_eq_true]
-  refine ⟨⟨⟨?_, ?_⟩, ?_⟩, ?_⟩
+  refine ⟨⟨⟨⟨?_, ?_⟩, ?_⟩, ?_⟩, ?_⟩
   · rw [hdead]; rfl
   · rw [houts]; simp
+  · rfl
   · simp only [observe, List.all_eq_true, List.mem_map, forall_exists_index, and_imp]
     intro e x hx he; subst he; simp only [beq_iff_eq]; rw [hinv.1 x hx]
   · simp only [observe, List.all_eq_true, List.mem_map, forall_exists_index, and_imp]
     intro e x hx he; subst he; simp only [beq_iff_eq]; rw [hinv.2 x hx]; rfl
+
+/-! ### one spec object with a container literal in argument position, used by several calls
+
+`S(acc=[])`, `Coalesce(…, default=[])`, `T.get(k, {})`, `Call(f, args=([],))`, `Assign(p, [])`,
+`Or(…, default=[])` …: the literal is an object inside the spec, shared by every call that uses the
+spec (threads, re-entrant calls, later calls).  `Glom/Model/C20Arg.lean` models `_ArgValuator.mode`
+on an object heap; the spec's literals are the addresses below `h.length`. -/
+
+section argShared
+open Glom.C20.Arg
+
+/-- **The value of an argument shares no container with the spec (`c20_argval_fresh`).**  Any heap
+    (the literal may be nested, shared between positions, contain itself), any argument, any
+    evaluation of its leaves, any fuel: `arg_val` leaves every object that existed untouched; what it
+    returns is a leaf or an object that did not exist; and every object it created holds leaves and
+    objects that did not exist.  Whatever a call then does to the value it received, it cannot reach
+    an object of the spec through it. -/
+theorem c20_argval_fresh (ev : String → String) (fuel : Nat) (h : Heap) (v : Val) :
+    (∀ a, a < h.length → (argVal ev fuel h v).1[a]? = h[a]?) ∧
+    FreshVal h.length (argVal ev fuel h v).2 ∧
+    (∀ a o, h.length ≤ a → (argVal ev fuel h v).1[a]? = some o → ∀ w ∈ o.items, FreshVal h.length w) := by
+  have hg : Good h.length ⟨h, []⟩ :=
+    ⟨by simp, fun a o ha ho => by have := (List.getElem?_eq_some_iff.mp ho).1; simp at this; omega⟩
+  obtain ⟨e, f⟩ := argEval_ext (base := h.length) ev fuel ⟨h, []⟩ v (Nat.le_refl _) hg
+  exact ⟨e.old, f, e.good.objs⟩
+
+/-- … so every value of the spec reads afterwards as it read before (a closed heap: references
+    inside the spec point into the spec) -/
+theorem c20_argval_spec_unchanged (ev : String → String) (fuel : Nat) (h : Heap) (v : Val) (hc : Closed h)
+    (n : Nat) (w : Val) (hw : ValIn h.length w) :
+    tokens (argVal ev fuel h v).1 n w = tokens h n w :=
+  tokens_frame hc (c20_argval_fresh ev fuel h v).1 n w hw
+
+/-- **Non-interference through a shared argument (`c20_arg_noninterference`).**  Any number of calls,
+    each any sequence of: take the value of a flat container literal of the spec in argument
+    position, push into the container received, read it, yield; ANY schedule of single operations
+    (in particular: threads switched anywhere, a call run to completion in the middle of another
+    one, calls one after the other).  Then the literals of the spec are what they were, and every
+    call has read, so far, exactly what the by-value reference `privRun` — in which no other call
+    occurs — reads for the operations it has done. -/
+theorem c20_arg_noninterference (n : Nat) (lits : Heap) (ts : List Thread)
+    (hflat : ∀ t ∈ ts, ∀ op ∈ t.ops, FlatOp lits op)
+    (hinit : ∀ t ∈ ts, t.reg = .leaf "None" ∧ t.out = []) (sched : List Nat) :
+    (∀ a, a < lits.length → ((Arg.Sys.mk lits ts).run false (n + 2) sched).heap[a]? = lits[a]?) ∧
+    ∀ (i : Nat) (t0 t : Thread), ts[i]? = some t0 → ((Arg.Sys.mk lits ts).run false (n + 2) sched).threads[i]? = some t →
+      ∃ done, t0.ops = done ++ t.ops ∧ t.out = (privRun t0.ev lits done {}).out := by
+  have inv := sysInv_run n hflat sched _ (sysInv_init lits ts hinit)
+  refine ⟨inv.frame, ?_⟩
+  intro i t0 t h0 ht
+  obtain ⟨_, done, h1, h2, _⟩ := inv.rel i t0 t h0 ht
+  exact ⟨done, h1, h2⟩
+
+/-- a call run ALONE (the only thread; `t.ops.length` steps) finishes -/
+theorem c20_arg_alone_finishes (fast : Bool) (fuel : Nat) (lits : Heap) (t0 : Thread) :
+    ∃ t, ((Arg.Sys.mk lits [t0]).run fast fuel (List.replicate t0.ops.length 0)).threads[0]? = some t ∧ t.ops = [] := by
+  have hstep : ∀ (t : Thread) (h : Heap), (t.step fast fuel h).1.ops = t.ops.tail := by
+    intro t h
+    unfold Thread.step
+    split
+    · next he => simp [he]
+    · next he => simp [he]
+    · next he => simp only [he]; split <;> simp
+    · next he => simp [he]
+    · next he => simp [he]
+  have : ∀ (k : Nat) (t : Thread) (h : Heap), t.ops.length = k →
+      ∃ t', ((Arg.Sys.mk h [t]).run fast fuel (List.replicate k 0)).threads[0]? = some t' ∧ t'.ops = [] := by
+    intro k
+    induction k with
+    | zero => intro t h hk; exact ⟨t, rfl, List.eq_nil_of_length_eq_zero hk⟩
+    | succ k ih =>
+      intro t h hk
+      simp only [List.replicate_succ, Arg.Sys.run]
+      have : (Arg.Sys.mk h [t]).step fast fuel 0 = Arg.Sys.mk (t.step fast fuel h).2 [(t.step fast fuel h).1] := by
+        simp [Arg.Sys.step]
+      rw [this]
+      exact ih _ _ (by rw [hstep]; simp; omega)
+  exact this _ t0 lits rfl
+
+/-- **… exactly as when run alone.**  A call that has finished under any schedule among any other
+    calls has read exactly what it reads when it is the only call (`c20_arg_alone_finishes`). -/
+theorem c20_arg_as_alone (n : Nat) (lits : Heap) (ts : List Thread)
+    (hflat : ∀ t ∈ ts, ∀ op ∈ t.ops, FlatOp lits op)
+    (hinit : ∀ t ∈ ts, t.reg = .leaf "None" ∧ t.out = []) (sched sched' : List Nat)
+    (i : Nat) (t0 t t' : Thread) (h0 : ts[i]? = some t0)
+    (ht : ((Arg.Sys.mk lits ts).run false (n + 2) sched).threads[i]? = some t) (hdone : t.ops = [])
+    (ht' : ((Arg.Sys.mk lits [t0]).run false (n + 2) sched').threads[0]? = some t') (hdone' : t'.ops = []) :
+    t.out = t'.out := by
+  have inv := sysInv_run n hflat sched _ (sysInv_init lits ts hinit)
+  have h0m : t0 ∈ ts := List.mem_of_getElem? h0
+  have inv' := sysInv_run (ts := [t0]) n (fun x hx => by simp at hx; rw [hx]; exact hflat t0 h0m) sched' _
+    (sysInv_init lits [t0] (fun x hx => by simp at hx; rw [hx]; exact hinit t0 h0m))
+  rw [sysInv_done inv i t0 t h0 ht hdone, sysInv_done inv' 0 t0 t' rfl ht' hdone']
+
+/-- **Checker theorem for the shared-argument cases** — the form in which the property is evaluated
+    on the implementation: at the harness's granularity (threads switch at yield points), when all
+    calls have finished, the observation (what each call read last; the literals before and after)
+    passes `checkArg` against what the calls read alone. -/
+theorem c20_arg_model_checks (n k : Nat) (lits : Heap) (ts : List Thread) (roots : List Val)
+    (hflat : ∀ t ∈ ts, ∀ op ∈ t.ops, FlatOp lits op)
+    (hinit : ∀ t ∈ ts, t.reg = .leaf "None" ∧ t.out = [])
+    (hroots : ∀ r ∈ roots, ∃ l o, r = .ref l ∧ lits[l]? = some o ∧ Flat o) (sched : List Nat)
+    (hall : ∀ t ∈ ((Arg.Sys.mk lits ts).runSegments false (n + 2) k sched).threads, t.ops = []) :
+    checkArg (ts.map fun t0 => (privRun t0.ev lits t0.ops {}).out.getLast?.getD [])
+      (observeArg (n + 2) lits roots ((Arg.Sys.mk lits ts).runSegments false (n + 2) k sched)) = true := by
+  have inv := sysInv_runSegments n hflat k sched _ (sysInv_init lits ts hinit)
+  generalize (Arg.Sys.mk lits ts).runSegments false (n + 2) k sched = s at inv hall
+  simp only [checkArg, observeArg, Bool.and_eq_true, beq_iff_eq]
+  constructor
+  · apply List.ext_getElem?
+    intro i
+    simp only [List.getElem?_map]
+    cases ht : s.threads[i]? with
+    | none =>
+      have : ts[i]? = none := by
+        rw [List.getElem?_eq_none_iff] at ht ⊢
+        rw [← inv.len]; exact ht
+      rw [this]; rfl
+    | some t =>
+      have hil : i < ts.length := by rw [← inv.len]; exact (List.getElem?_eq_some_iff.mp ht).1
+      have h0 : ts[i]? = some ts[i] := List.getElem?_eq_getElem hil
+      rw [h0]
+      simp only [Option.map_some, lastRead]
+      rw [sysInv_done inv i ts[i] t h0 ht (hall t (List.mem_of_getElem? ht))]
+  · apply List.map_congr_left
+    intro r hr
+    obtain ⟨l, o, rfl, hlo, hfo⟩ := hroots r hr
+    have hll : l < lits.length := (List.getElem?_eq_some_iff.mp hlo).1
+    rw [tokens_flat s.heap (n + 1) l o (by rw [inv.frame l hll]; exact hlo) hfo, tokens_flat lits (n + 1) l o hlo hfo]
+
+/-- the spec `(S(acc=[]), S.acc.append(T['id']), <user callable>, S.acc)` used by two calls -/
+private def accLits : Heap := [⟨.list, []⟩]
+private def accCall (id : String) : Thread :=
+  { ev := fun s => s, ops := [.bind (.ref 0), .push [] id, .yield, .read] }
+
+/-- **Counter-example: an empty container in argument position returned as it is (the seeded change
+    C20-s7).**  `fast = true`: the literal inside the spec becomes the per-call value.  Two calls that
+    both take the argument before either pushes read each other's push; run one after the other, B
+    reads A's push (the literal is no longer empty: B gets a copy of what A left); the literal of
+    the spec has changed.  With the code as it is (`fast = false`) each reads its own push only. -/
+theorem c20_arg_fastpath_counterexample :
+    (((Arg.Sys.mk accLits [accCall "'A'", accCall "'B'"]).run true 8 [0, 1, 0, 1, 0, 1, 1, 0]).threads.map (·.out)
+      = [[["list(", "'A'", "'B'", ")"]], [["list(", "'A'", "'B'", ")"]]]) ∧
+    (((Arg.Sys.mk accLits [accCall "'A'", accCall "'B'"]).run true 8 [0, 0, 0, 0, 1, 1, 1, 1]).threads.map (·.out)
+      = [[["list(", "'A'", ")"]], [["list(", "'A'", "'B'", ")"]]]) ∧
+    ((Arg.Sys.mk accLits [accCall "'A'", accCall "'B'"]).run true 8 [0, 1, 0, 1, 0, 1, 1, 0]).heap[0]?
+      = some ⟨.list, [.leaf "'A'", .leaf "'B'"]⟩ ∧
+    (((Arg.Sys.mk accLits [accCall "'A'", accCall "'B'"]).run false 8 [0, 0, 0, 1, 1, 1, 1, 0]).threads.map (·.out)
+      = [[["list(", "'A'", ")"]], [["list(", "'B'", ")"]]]) ∧
+    ((Arg.Sys.mk accLits [accCall "'A'", accCall "'B'"]).run false 8 [0, 0, 0, 1, 1, 1, 1, 0]).heap[0]?
+      = some ⟨.list, []⟩ := by
+  decide +kernel
+
+-- the hypotheses of `c20_arg_noninterference` are satisfiable by a non-trivial input …
+example : ∀ t ∈ [accCall "'A'", accCall "'B'"], ∀ op ∈ t.ops, FlatOp accLits op := by
+  intro t ht op hop
+  simp only [List.mem_cons, List.not_mem_nil, or_false] at ht
+  rcases ht with rfl | rfl <;>
+  · simp only [accCall, List.mem_cons, List.not_mem_nil, or_false] at hop
+    rcases hop with rfl | rfl | rfl | rfl
+    · exact ⟨0, ⟨.list, []⟩, rfl, rfl, by intro v hv; simp at hv⟩
+    · rfl
+    · trivial
+    · trivial
+-- … and `c20_argval_fresh` says something for a literal that is nested, shared and cyclic:
+-- `x = []; l = [x, x, {'k': x}]; l.append(l)` evaluates to a new list whose first two items are ONE
+-- new list, with a new dict around the same new list, and itself as the last item
+example : argVal (fun s => s) 8 [⟨.list, []⟩, ⟨.list, [.ref 0, .ref 0, .ref 2, .ref 1]⟩, ⟨.dict, [.leaf "'k'", .ref 0]⟩] (.ref 1)
+    = ([⟨.list, []⟩, ⟨.list, [.ref 0, .ref 0, .ref 2, .ref 1]⟩, ⟨.dict, [.leaf "'k'", .ref 0]⟩,
+        ⟨.list, [.ref 4, .ref 4, .ref 5, .ref 3]⟩, ⟨.list, []⟩, ⟨.dict, [.leaf "'k'", .ref 4]⟩], .ref 3) := by
+  decide +kernel
+
+end argShared
 
 /-! ### non-vacuity -/
 
